@@ -39,7 +39,7 @@ func genTable(rng *rand.Rand) Table {
 		names[i] = fmt.Sprintf("k%d", i)
 	}
 	if rng.Intn(6) == 0 {
-		names[rng.Intn(n)] = "version" // shadows the bare built-in
+		names[n-1] = "version" // shadows the bare built-in
 	}
 	var t Table
 	if rng.Intn(3) == 0 {
@@ -48,7 +48,20 @@ func genTable(rng *rand.Rand) Table {
 	if rng.Intn(4) == 0 {
 		t.GroupID = "org.g"
 	}
+	// One table in three is acyclic by construction (entry i mentions earlier
+	// entries and existing built-ins only): every string is then resolvable.
+	acyclic := rng.Intn(3) == 0
+	if acyclic {
+		t.Version, t.GroupID = "9.9", "org.g"
+	}
+	cur := n // index of the entry being written; n = a field
 	key := func() string {
+		if acyclic {
+			if cur > 0 && rng.Intn(5) > 0 {
+				return names[rng.Intn(cur)]
+			}
+			return pick(rng, []string{"project.version", "pom.version", "project.groupId", "pom.groupId"})
+		}
 		switch k := rng.Intn(20); {
 		case k < 14:
 			return names[rng.Intn(n)]
@@ -72,11 +85,13 @@ func genTable(rng *rand.Rand) Table {
 		return b.String()
 	}
 	for i := 0; i < n; i++ {
+		cur = i
 		t.Props = append(t.Props, [2]string{names[i], value()})
-		if rng.Intn(10) == 0 {
+		if !acyclic && rng.Intn(10) == 0 {
 			t.Props = append(t.Props, [2]string{names[rng.Intn(n)], value()}) // a later definition replaces an earlier one
 		}
 	}
+	cur = n
 	for i := 0; i < 5; i++ {
 		t.Fields = append(t.Fields, value())
 	}
